@@ -7,6 +7,9 @@ Driver of the C05 model.  One request line = one execution:
   run conf <idxK> <idxU> | init <op> | … | op <op> | … | sched <c>,<c>,…
   op ::= add k u v | upd id k=..,u=..,v=.. | rm id | get id | flush | ext key val
   c  ::= s<task>  (the call is issued)  |  r<task>  (its oldest parked backend call is released)
+       | a<task>  (gated replays: the call runs alone until it returns)
+  optional parts:  fine  (index closures split per index)  ·  gate <task> <index>  (the task is
+  held before the second index of its closure: the real-parallelism replays of F-C05-1/2)
 
 `consts` answers the constants regenerated from the source.
 
@@ -24,8 +27,9 @@ namespace AndaVerif.DrvC05
 inductive Want where
   | gate (writer : Bool) | lock (stripe : Nat) | wm | ext | parked | done | free
 
-def want (sh : Shared) (th : Thread) : Want :=
+def want (sh : Shared) (gated : Bool) (th : Thread) : Want :=
   match th.pc, th.op with
+  | .idxU, _ => if gated then .parked else .free
   | .done, _ => .done
   | .idle, .get _ => .free
   | .idle, .flush => .gate true
@@ -34,8 +38,7 @@ def want (sh : Shared) (th : Thread) : Want :=
   | .lockWait, .rm id => .lock (stripe sh id)
   | .wmWait, _ => .wm
   | .extWait, _ => .ext
-  | .idxU, _ => .free
-  | _, _ => .parked
+  | _, _ => if gated then .free else .parked   -- a gated replay runs on a pass-through store
 
 structure DS where
   c : Cfg
@@ -49,6 +52,8 @@ structure DS where
   gExt : Option Nat := none
   woken : List Nat := []
   fine : List Nat := []
+  /-- real-parallelism replay: this task is held inside its index closure (before the second index) -/
+  gated : Option Nat := none
   err : Option String := none
 
 def isFlush (c : Cfg) (t : Nat) : Bool :=
@@ -104,7 +109,7 @@ partial def runEager (d : DS) (t : Nat) : DS :=
   match d.c.th[t]? with
   | none => { d with err := some s!"no task {t}" }
   | some th =>
-    match want d.c.sh th with
+    match want d.c.sh (d.gated == some t) th with
     | .parked | .done => d
     | .free => runEager (stepG d t) t
     | .gate w =>
@@ -144,9 +149,19 @@ def choice (d : DS) (s : String) : DS :=
       match d.c.th[t]? with
       | none => { d with err := some s!"no task {t}" }
       | some th =>
-        match want d.c.sh th with
+        match want d.c.sh (d.gated == some t) th with
         | .parked => settle (runEager (stepG d t) t)
         | _ => { d with err := some s!"task {t} is not parked at a backend call after {d.fine.length} actions" }
+    else if s.startsWith "a" then
+      -- run the call alone until it returns or blocks (the store is pass-through in a gated replay)
+      let rec go (fuel : Nat) (d : DS) : DS :=
+        match fuel with
+        | 0 => d
+        | n + 1 =>
+          match step t d.c with
+          | some c' => go n { d with c := c', fine := t :: d.fine }
+          | none => d
+      go 64 d
     else { d with err := some s!"bad choice {s}" }
 
 -- ------------------------------------------------------------------------------------------
@@ -222,10 +237,12 @@ def runCase (parts : List String) : String := Id.run do
   let mut inits : List Op := []
   let mut ops : List Op := []
   let mut sched : List String := []
+  let mut gated : Option Nat := none
   for p in parts do
     match words p with
     | ["conf", a, b] => conf := { conf with idxK := a == "1", idxU := b == "1" }
     | ["fine"] => conf := { conf with fine := true }
+    | ["gate", t, _] => gated := t.toNat?
     | "init" :: rest => match parseOp rest with
       | some o => inits := inits ++ [o]
       | none => return "bad-op"
@@ -242,7 +259,7 @@ def runCase (parts : List String) : String := Id.run do
     sh := c.sh
     initRes := initRes ++ [showRes false default ((c.th[0]?).bind (·.res))]
   let c0 : Cfg := { sh := sh, th := ops.map mkThread }
-  let d := sched.foldl choice ({ c := c0 } : DS)
+  let d := sched.foldl choice ({ c := c0, gated := gated } : DS)
   match d.err with
   | some e => return s!"err:desync {e}"
   | none =>
